@@ -19,6 +19,10 @@ func init() {
 
 func runC01(c *CaseCtx) {
 	r := c.Rng
+	if c.Case%16 == 9 {
+		largeHistory(c, "clean-kv", largeOpts{Kind: "kv", Modes: []int{0, 1}, Merge: c.Case%32 == 9})
+		return
+	}
 	cfg := randCfg(r, []int{0, 1}, 96, 1024)
 	nKeys := []int{6, 12, 25, 40, 60}[r.Intn(5)]
 	u := defaultUniverse(r, 2+r.Intn(2), nKeys, false)
